@@ -2,6 +2,7 @@
 From Coq Require Import ZArith List.
 From Verif Require Import Lib.Params Spec.Edwards Model.BabyJub
   Proofs.BabyJubGroup Proofs.BabyJubModel Proofs.BabyJubSmallOrder.
+From Verif Require Gen.BigIntRoutines Proofs.BigIntEqMember.
 Local Open Scope Z_scope.
 
 Notation oc := (on_curve q ca cd).
@@ -33,8 +34,17 @@ Proof. exact InSubGroup_00. Qed.
 Theorem C13_small_order_outside : forall P, In P small8 -> P <> ed_zero -> InSubGroup P = false.
 Proof. exact small_order_not_in_subgroup. Qed.
 
+(* TRANSLATOR TIE: tools/bigintgen regenerates value-level Gallina from the Go source of these
+   functions at every run (Gen/BigIntRoutines.v); it equals the hand-written model the theorems
+   above are about, for all arguments.  An edit of the Go function breaks this. *)
+Theorem C13_model_is_the_source :
+  (forall p, BigIntRoutines.babyjub_Point_InCurve p = InCurve p) /\
+  (forall p, BigIntRoutines.babyjub_Point_InSubGroup p = InSubGroup p).
+Proof. exact (conj BigIntEqMember.gen_babyjub_Point_InCurve_eq BigIntEqMember.gen_babyjub_Point_InSubGroup_eq). Qed.
+
 Print Assumptions C13_incurve_iff.
 Print Assumptions C13_insubgroup_iff.
 Print Assumptions C13_small_component_outside.
 Print Assumptions C13_multiples_inside.
 Print Assumptions C13_small_order_outside.
+Print Assumptions C13_model_is_the_source.
